@@ -1,5 +1,5 @@
 (* C14 — property theorems only.  Every theorem is closed by [exact] of a lemma proved in
-   ProofsA..D.v and followed by [Print Assumptions].
+   ProofsA..G.v and followed by [Print Assumptions].
 
    [exec g scs sched orc] (Model.v) runs the machine: [scs] are the transactions (each: which
    API, context already cancelled or not, breaker verdict, connection provider ok or not, the
@@ -19,7 +19,7 @@
    the body of another (its quanta lie between two quanta of the outer one).
    [trace t] = the driver calls made on behalf of transaction t, in order. *)
 From Coq Require Import List ZArith Bool Sorted.
-From GZ Require Import C14.Model C14.Check C14.ProofsA C14.ProofsB C14.ProofsC C14.ProofsD C14.ProofsE C14.ProofsF.
+From GZ Require Import C14.Model C14.Check C14.ProofsA C14.ProofsB C14.ProofsC C14.ProofsD C14.ProofsE C14.ProofsF C14.ProofsG.
 Import ListNotations.
 Open Scope Z_scope.
 
@@ -262,6 +262,24 @@ Theorem nested_call_is_its_own_transaction : forall g scs sched orc t th r,
 Proof. intros g scs sched orc t th r H. exact (own_bracket_l g scs sched orc t th H r). Qed.
 Print Assumptions nested_call_is_its_own_transaction.
 
+(* The circuit breaker of the SqlConn OPENING WHILE A BODY RUNS (other requests on the same SqlConn
+   fail: step [ATrip]) changes nothing for a transaction that has begun: TransactCtx asks the breaker
+   once, before Begin; Begin, the session's statements, Commit and Rollback do not go through it.
+   The run in which every such step is a no-op is the same run: same driver calls in the same order
+   (so: every begun transaction is still ended exactly once, Commit iff its body returned nil), same
+   script consumed, same results told to the callers, same connections checked out — for every set of
+   transactions, every schedule, every driver script. (Seeded C14-11 sends the end call through the
+   breaker: Pinned.end_refused_by_open_breaker_refuted.) *)
+Theorem breaker_opening_during_the_body_changes_nothing : forall g scs sched orc,
+  let W := exec g scs sched orc in
+  let W' := exec g (map untrip scs) sched orc in
+  wlog W' = wlog W /\ worc W' = worc W /\ wleaks W' = wleaks W /\
+  map result_of (wthreads W') = map result_of (wthreads W) /\
+  map tinuse (wthreads W') = map tinuse (wthreads W) /\
+  count_open (wthreads W') = count_open (wthreads W).
+Proof. exact trip_changes_nothing. Qed.
+Print Assumptions breaker_opening_during_the_body_changes_nothing.
+
 (* Nested use.  A Transact / TransactCtx on the transaction's own session
    (NewSqlConnFromSession(s), CachedConn.WithSession(s)) makes no driver call, leaves the outer
    transaction as it is, and the step fails with errCantNestTx; the inner body does not exist in
@@ -409,3 +427,12 @@ Example ex_deadline_during_statement :
   wlog W = [mkEnt 0 1 CBegin OOk vgen; mkEnt 0 1 (CStmt 0 KExec) OOk vgen; mkEnt 0 1 CRollback OOk vgen] /\
   map tst (wthreads W) = [TDone (mkRes 1 (Some (BErr (BCtx 1 true))) (RetErr (EBody (BCtx 1 true))) false)].
 Proof. vm_compute. auto. Qed.
+
+(* a body during which the breaker opens twice, a failing statement in between: still Begin,
+   statements, one Rollback *)
+Example ex_breaker_opens_during_body :
+  let W := exec true [sc_of [mkStep ATrip FStop; st MExec FStop; mkStep ATrip FStop; st MExec FStop] RNil]
+                [0; 0; 0; 0; 0; 0]%nat [rp OOk false; rp OOk false; rp OFail false] in
+  map ecall (wlog W) = [CBegin; CStmt 1 KExec; CStmt 3 KExec; CRollback] /\
+  map untrip (map tsc (wthreads W)) <> map tsc (wthreads W).
+Proof. vm_compute. split; [reflexivity | discriminate]. Qed.
